@@ -17,6 +17,7 @@ PRELUDE = r"""
 #include <sstream>
 #include <string>
 #include <type_traits>
+#include <utility>
 #include <vector>
 
 static void P(const std::string &k, const std::string &v) { std::printf("%s=%s\n", k.c_str(), v.c_str()); }
